@@ -116,9 +116,3 @@ func (d *dnsWatch) Close() {
 	}
 	dns.MinResolutionInterval = d.oldMin
 }
-
-func atoi64s(s string) int64 {
-	var v int64
-	fmt.Sscan(s, &v)
-	return v
-}
